@@ -8,7 +8,8 @@ from mc import pool, wire, refms
 
 CHARS = ["a", '"', "\\", "\r", "\n", "\x00", "{", "}", "5", "+", "é", " ", "\ufeff"]
 SPECIAL = ["", "{5}", "{5+}", "{5+}x", "{0+}", "{1+}\r\nx", "a" * 1025, 'a"\r\nLOGOUT', "a\r\nLOGOUT\r\n", "€\U0001F600", "{3}", "{3+}\r\nabc",
-           "caf\udce9", "\ud800x", "a" * 1024, "é" * 512, "é" * 513]  # lone surrogates cannot be encoded: must be refused before writing
+           "caf\udce9", "\ud800x", "a" * 1024, "é" * 512, "é" * 513,
+           "cafe\u0301", "\u212b", "\u2126m", "\uff02x\uff3c"]  # decomposed / singleton / full-width look-alikes: names are octets  # lone surrogates cannot be encoded: must be refused before writing
 SIZES = [0, 1, 10, 2 ** 32 - 1, 2 ** 32, -1]
 
 VERB = {"havespace": "HAVESPACE", "getscript": "GETSCRIPT", "putscript": "PUTSCRIPT", "checkscript": "CHECKSCRIPT",
